@@ -114,7 +114,12 @@ META = {
         "plus the family huge (both tiers): page boxes, and boxes of analysed figures, that are huge (10^6, 10^11, 2^40; also with a "
         "negative origin) in exactly one dimension or in both, holding 2 or 3 two-glyph boxes far apart along the huge "
         "dimension(s), boxes_flow {0.5,None,-1,1}, full oracle, termination judged by a counted budget of 2*10^7 Plane grid "
-        "steps; plus the family device-forms (both tiers): generated PDFs interpreted through PDFPageAggregator (laparams None / "
+        "steps; plus the family extreme (both tiers): (a) every sequence of at most 2 pool glyphs x every LAParams in which at most two of "
+        "line_overlap, char_margin, line_margin, word_margin take a value from {0, 1e9, 1e300, inf} (at boxes_flow 0.5 with "
+        "detect_vertical, and at None without); (b) every sequence of at most 3 glyphs from a pool of 3 ordinary and 5 gigantic glyphs "
+        "(2e9 square around the page, 1e12 wide, 1e9 tall, 1e300 square, gigantic off-page) x boxes_flow {0.5,None} x detect_vertical; "
+        "layout and oracle as for the main family, plus a counted budget of 2*10^6 Plane grid steps on the 100x100 page; "
+        "plus the family device-forms (both tiers): generated PDFs interpreted through PDFPageAggregator (laparams None / "
         "all_texts False / True) whose page shows two glyphs, a Form XObject (two glyphs, a rectangle, optionally a nested form "
         "with a glyph and a rectangle) and an image XObject, for 5 form /BBox values (3 of them degenerate) x 4 form /Matrix x 4 "
         "cm (singular ones included): every glyph, figure, image and shape shown must occur exactly once under its own figure; "
@@ -459,7 +464,7 @@ class Walk:
         return figs
 
 
-def analyse(specs, p, variant=0):
+def analyse(specs, p, variant=0, cell_budget=None):
     """Runs the real analysis and the invariant walk. -> (problems, outcome, nontrivial, complete)"""
     global _HEAP
     if _HEAP is None:
@@ -471,13 +476,22 @@ def analyse(specs, p, variant=0):
     _HEAP.pops = 0
     install_stable_id().reset()
     _HEAP.budget = 2 * (4 * n * n + 16)  # page + figure; each pair is popped at most twice, each merge adds < n pairs
+    dr = None
+    if cell_budget is not None:
+        dr = install_counting_drange()
+        dr.cells = 0
+        dr.budget = cell_budget
     try:
         page.analyze(_lap(p))
     except HeapBudgetExceeded as e:
         return [("C08/nontermination:box-merging-loop", "terminates", str(e))], ("nonterm",), True, False
+    except CellBudgetExceeded as e:
+        return [("C08/nontermination:plane-grid-walk", f"at most {cell_budget} grid steps", str(e))], ("nonterm",), True, False
     except Exception as e:  # noqa
-        tb = traceback.extract_tb(e.__traceback__)
-        return [(f"C08/exception:{type(e).__name__}@{tb[-1].name}", "analysis returns", f"{type(e).__name__}: {e}")], ("exc", type(e).__name__), True, False
+        return [(exc_signature(e), "analysis returns", f"{type(e).__name__}: {str(e)[:120]}")], ("exc", type(e).__name__), True, False
+    finally:
+        if dr is not None:
+            dr.budget = 1 << 62
     w = Walk(p)
     leaves_of = {}
 
@@ -535,20 +549,50 @@ def analyse(specs, p, variant=0):
     return w.problems, (variant,) + tuple(w.shape), w.multi, True
 
 
-def check_case(specs, p, st, variant=0):
-    problems, outcome, multi, complete = analyse(specs, p, variant)
+def check_case(specs, p, st, variant=0, cell_budget=None):
+    problems, outcome, multi, complete = analyse(specs, p, variant, cell_budget)
     st.transitions += 1
     if complete:
         st.traces += 1
     st.case(None, nontrivial=multi, outcome=outcome)
     if problems:
         case = {"glyphs": [tuple(s) for s in specs], "params": tuple(p), "variant": variant}
+        if cell_budget is not None:
+            case["cell_budget"] = cell_budget
         seen = set()
         for sig, exp, obs in problems:
             if sig in seen:
                 continue
             seen.add(sig)
             st.violation(sig, case, exp, obs, sig.split("/", 1)[1])
+
+
+# ---- family "extreme": extreme LAParams values and glyphs that are gigantic relative to the (100 x 100) page, under a
+# counted budget of Plane grid steps (a 100 x 100 page has 3 x 3 cells: legitimate work is tiny)
+EXTREME_VALUES = [0, 1e9, 1e300, float("inf")]
+EXTREME_CELL_BUDGET = 2_000_000
+GIANTS = [
+    ("G", -1e9, -1e9, 2e9, 2e9, "h"),     # covers the page and a billion units around it
+    ("g", 50, 50, 1e12, 8, "h"),          # ordinary height, absurdly wide, starts on the page
+    ("T", 10, 40, 8, 1e9, "h"),           # ordinary width, absurdly tall
+    ("X", 30, 30, 1e300, 1e300, "h"),     # areas overflow to inf
+    ("o", 1e9, 1e9, 1e9, 1e9, "h"),       # gigantic and entirely off the page
+]
+GIANT_POOL = [POOL[0], POOL[1], POOL[3]] + GIANTS
+
+
+def extreme_params():
+    """every LAParams with at most two of the four margins replaced by an extreme value, at (0.5, dv=True) and (None, dv=False)"""
+    out = []
+    for k in (0, 1, 2):
+        for pos in itertools.combinations(range(4), k):
+            for vals in itertools.product(EXTREME_VALUES, repeat=k):
+                m = list(MARGIN_DEFAULT)
+                for i, v in zip(pos, vals):
+                    m[i] = v
+                for flags in ((0.5, True, True), (None, False, True)):
+                    out.append(flags + tuple(m))
+    return out
 
 
 # ---- family "vcols": vertical boxes whose lines have different widths (nested / partially overlapping x-extents)
@@ -909,6 +953,7 @@ def shards(tier):
     out += [("deep-chain", "direct", arr, n, bf) for arr in DC_ARR for n in DC_N for bf in DC_FLOWS if keep(arr, n, bf)]
     out += [("deep-chain", "pdf", arr, n, o) for arr in DC_ARR for n in DC_N for o in DC_OUT if keep(arr, n, o)]
     out += [("huge", i) for i in range(len(HUGE_PAGES))]
+    out += [("extreme", "params", i) for i in range(len(POOL))] + [("extreme", "giants", i) for i in range(len(GIANT_POOL))]
     out += [("device-forms", i) for i in range(len(DF_BBOX))]
     return out
 
@@ -945,6 +990,27 @@ def run_shard(shard, tier, st):
                 st.violation(sig, case, exp, obs, sig.split("/", 1)[1])
         if shard[2:] == ("stack", 50, 0.5):
             st.sample({k: (v if k not in ("glyphs", "pdf") else f"<{len(v)} items>") for k, v in case.items()})
+        return
+    if shard[0] == "extreme":
+        i = shard[2]
+        if shard[1] == "params":
+            # every sequence of at most 2 pool glyphs starting with glyph i (and the empty page in shard 0)
+            seqs = [(i,)] + [(i, j) for j in range(len(POOL))] + ([()] if i == 0 else [])
+            grid = extreme_params()
+            pool = POOL
+        else:
+            n = len(GIANT_POOL)
+            seqs = [(i,)] + [(i, j) for j in range(n)] + [(i, j, k) for j in range(n) for k in range(n)]
+            grid = [(bf, dv, True) + MARGIN_DEFAULT for bf in (0.5, None) for dv in (False, True)]
+            pool = GIANT_POOL
+        specs = []
+        for seq in seqs:
+            specs = [pool[j] for j in seq]
+            st.states += 1
+            for p in grid:
+                check_case(specs, p, st, 0, EXTREME_CELL_BUDGET)
+        if i == 1:
+            st.sample({"family": "extreme-" + shard[1], "glyphs": specs, "params": grid[-1], "n_params": len(grid)})
         return
     if shard[0] in ("huge", "device-forms"):
         if shard[0] == "huge":
@@ -1022,7 +1088,7 @@ def replay(case):
         return out
     specs = [tuple(s) for s in case["glyphs"]]
     p = tuple(case["params"])
-    problems, _, _, _ = analyse(specs, p, int(case.get("variant", 0)))
+    problems, _, _, _ = analyse(specs, p, int(case.get("variant", 0)), case.get("cell_budget"))
     out = []
     seen = set()
     for sig, exp, obs in problems:
